@@ -70,12 +70,14 @@ func newDataStoreSet(l lane.Lane, basePath string, phook *DispatchHook) *dataSto
 
 func (dss *dataStoreSet) save(l lane.Lane) error {
 	// the table of databases changes when a connection selects a new one
+	simBeforeLock(&dss.mu, "dss.mu")
 	dss.mu.Lock()
 	dbs := make(map[int]*dataStore, len(dss.dbs))
 	for index, ds := range dss.dbs {
 		dbs[index] = ds
 	}
 	dss.mu.Unlock()
+	simAfterUnlock(&dss.mu, "dss.mu")
 
 	for index, ds := range dbs {
 		dsc := ds.newDataStoreCommand()
